@@ -1,6 +1,10 @@
 //! Verification harness: drives the real crates from /repo and writes ndjson traces that the
 //! TLA+ trace specifications in /verif/spec judge.  Rust only drives and projects; no verdicts.
 mod bq;
+mod meta;
+mod rcdomops;
+mod parse;
+mod parsegen;
 mod crgen;
 mod tok;
 mod tokgen;
@@ -19,6 +23,9 @@ fn main() {
     match argv[1].as_str() {
         "bq" => bq::main(&args),
         "tok" => tok::main(&args),
+        "meta" => meta::main(&args),
+        "rcdom" => rcdomops::main(&args),
+        "parse" => parsegen::main(&args),
         "charref" => crgen::main(&args),
         "utf8" => utf8::main_utf8(&args),
         "enc" => utf8::main_enc(&args),
